@@ -202,6 +202,10 @@ func c18Gen(t *rapid.T) C18Case {
 		`sum by (tier, env) (count_over_time({}[5s])) / sum by (tier, env) (bytes_over_time({}[5s]))`,
 		`count_over_time({}[2s]) + count_over_time({}[2s])`,
 		`sum by (tier, env) (count_over_time({}[5s])) or sum by (tier, env) (count_over_time({tier="web"}[5s]))`,
+		// ties at the cut of topk / bottomk (containers that logged equally many lines)
+		`topk(1, sum by (container) (count_over_time({}[5s])))`,
+		`bottomk(1, count_over_time({} | drop msg [5s]))`,
+		`bottomk(2, sum by (container, tier) (count_over_time({}[3s])))`,
 		// NaN among the inputs of an aggregation (1/0 for the series that count one line)
 		`max by (tier) (count_over_time({}[5s]) / (count_over_time({}[5s]) - 1))`,
 		`min (count_over_time({}[3s]) / (count_over_time({}[3s]) - 1))`,
@@ -250,8 +254,8 @@ func c18Gen(t *rapid.T) C18Case {
 			op := rapid.SampledFrom([]string{"sum", "max", "min", "count"}).Draw(t, "gn-op")
 			q = op + " " + grouping("g"+strconv.Itoa(i+1)) + " (" + q + ")"
 		}
-		if rapid.IntRange(0, 3).Draw(t, "gn-topk") == 0 {
-			q = "topk " + grouping("gt") + " (" + strconv.Itoa(rapid.IntRange(1, 3).Draw(t, "gn-k")) + ", " + q + ")"
+		if rapid.IntRange(0, 2).Draw(t, "gn-topk") == 0 {
+			q = rapid.SampledFrom([]string{"topk", "bottomk"}).Draw(t, "gn-topk-op") + " " + grouping("gt") + " (" + strconv.Itoa(rapid.IntRange(1, 3).Draw(t, "gn-k")) + ", " + q + ")"
 		}
 		c.Query = q
 	}
